@@ -11,6 +11,22 @@ Local Open Scope N_scope.
 Lemma prelude_order_ok : prelude_order = [0; 1; 2].
 Proof. reflexivity. Qed.
 
+(* ... and on the condition under which generate_hash_key adds the working directory to the arguments of the
+   preprocessor-cache key: hash_working_directory alone (not, e.g., "and the input path is absolute") *)
+Lemma prelude_cwd_guard_ok : prelude_cwd_guard = [1].
+Proof. reflexivity. Qed.
+
+(* with hash_working_directory, requests from different working directories never have the same argument list,
+   whatever their other arguments (and whatever the spelling of the input path, which is not part of it) *)
+Theorem pp_args_cwd cfg pre1 arch1 common1 prof1 cwd1 pre2 arch2 common2 prof2 cwd2 :
+  hash_working_directory cfg = true ->
+  prelude_pp_args cfg pre1 arch1 common1 prof1 cwd1 = prelude_pp_args cfg pre2 arch2 common2 prof2 cwd2 ->
+  cwd1 = cwd2.
+Proof.
+  unfold prelude_pp_args. intros Hh He. rewrite Hh in He. rewrite !app_assoc in He.
+  apply app_inj_tail in He. destruct He as [_ He]. exact He.
+Qed.
+
 Lemma code_actions_ok reads : code_actions prelude_order reads = CTake :: map CRead reads ++ [CRecord].
 Proof. rewrite prelude_order_ok. unfold code_actions. cbn [flat_map N.eqb Pos.eqb app]. rewrite ?app_nil_r. reflexivity. Qed.
 
